@@ -40,7 +40,7 @@ META['level_text'] = (
     'random nested templates (every DNA of spaces up to 200, 50 random beyond), on corrupted DNA trees and perturbed values; the direct oracle evaluates the property text on the real objects.')
 META['level_note'] = (
     'Tie: a fail-closed translator regenerates Float._decode / Float.encode, the exception classes try_encode swallows, the index test of Choices._decode and the constraint checks of Choices.encode from the current source on every run (proved equal to the model: generated_agree) and pins the AST of the 19 functions the model was transcribed from. Partial: "never modify the template" and "decoding twice gives equal values" are definitionally true of a pure Gallina function and are NOT claimed as theorems; they are decided by the '
-    'oracle only (pg.to_json and a structural snapshot of the template before/after every decode / encode / iter / materialize; two decodes compared with pg.eq; decoded values share no node with the template; HISTORY on one template object: decode, the caller modifies the result at every reachable node, decode again and another DNA — compared with a fresh template, node-disjoint from earlier results, encoded back; sequences of DNAs on templates with pg.hyper.reference). '
+    'oracle only (pg.to_json and a structural snapshot of the template before/after every decode / encode / iter / materialize; two decodes compared with pg.eq; decoded values share no node with the template; HISTORY on one template object: decode, the caller modifies the result at every reachable node, decode again and another DNA — compared with a fresh template, node-disjoint from earlier results, encoded back; sequences of DNAs on templates with pg.hyper.reference; a partially decoded value is run through the whole check again as a search space of its own (second stage); hyper primitives updated in place with rebind before use). '
     'Runtime aliasing is not expressible in the model. Trusted: Coq kernel; extraction cross-checked with vm_compute; the harness. Modelled, not verified: the Python code itself (tied by the correspondence); '
     'user code of CustomHyper subclasses is a Section variable with stated hypotheses. Statements only partly proved are named *_partial in coq/Properties/C13.v and listed in design/C13.md.')
 
@@ -869,9 +869,72 @@ def ends_sdna(s, sd, pick):
     else: out.append(x)
   return out
 
-def process_template(job):
+def desc_paths(t, keys=()):
+  """(key tuple, node) of every node of a description; the keys are those of the real object (candidates of a placeholder under 'candidates')."""
+  out = [(keys, t)]
+  if t[0] in '1M':
+    for i, c in enumerate(cands_of(t)): out += desc_paths(c, keys + ('candidates', i))
+  else:
+    for k, c in kids(t): out += desc_paths(c, keys + (k,))
+  return out
+
+def desc_put(t, keys, new):
+  if not keys: return new
+  t = list(t)
+  if t[0] in '1M':
+    slot = 1 if t[0] == '1' else 2
+    assert keys[0] == 'candidates'
+    cs = list(t[slot]); cs[keys[1]] = desc_put(cs[keys[1]], keys[2:], new); t[slot] = cs
+    return t
+  slot = 2 if t[0] == 'O' else 1
+  items = list(t[slot])
+  if t[0] == 'l': items[keys[0]] = desc_put(items[keys[0]], keys[1:], new)
+  else: items = [[k, desc_put(x, keys[1:], new) if k == keys[0] else x] for k, x in items]
+  t[slot] = items
+  return t
+
+def rebind_variant(rng, t):
+  """(t0, ops, kind): a template t0 that differs from t in one place below a hyper primitive, and the in-place update
+  (path keys, description of the new value | ('attr', value)) that turns the real object of t0 into t.  None when t has no such place."""
+  hs = [(ks, n) for ks, n in desc_paths(t) if is_hyper(n)]
+  rng.shuffle(hs)
+  for ks, h in hs:
+    opts = []
+    if h[0] in '1M':
+      cs = cands_of(h)
+      for i, c in enumerate(cs):
+        opts.append(('candidate', ks + ('candidates', i), c, ['L', 'OLD'] if c != ['L', 'OLD'] else ['L', 'OLD2']))
+        for k, x in kids(c) if not is_hyper(c) else []:
+          opts.append(('nested-field-of-candidate', ks + ('candidates', i, k), x, ['L', 'OLD'] if x != ['L', 'OLD'] else ['L', 'OLD2']))
+      opts.append(('hints', ks + ('hints',), ('attr', attrs(h)[1]), ('attr', 77)))
+    if h[0] == 'F':
+      opts.append(('float-bound', ks + ('min_value',), ('attr', h[1]), ('attr', h[1] - 1.0)))
+      opts.append(('hints', ks + ('hints',), ('attr', h[4]), ('attr', 77)))
+    if opts:
+      kind, path, new, old = rng.choice(opts)
+      if old[0] == 'attr':
+        h0 = list(h)
+        if path[-1] == 'hints': h0[{'1': 3, 'M': 6, 'F': 4, 'X': 3}[h[0]]] = old[1]
+        else: h0[1] = old[1]
+        t0 = desc_put(t, ks, h0)
+      else:
+        t0 = desc_put(t, path, old)
+      return t0, [[list(path), list(new) if new[0] != 'attr' else ['attr', new[1]]]], kind
+  return None
+
+def build_rebound(t0, ops):
+  """The real object of t0, then updated in place."""
+  pg = py()['pg']
+  hv = to_pg(t0)
+  for path, new in ops:
+    val = new[1] if new[0] == 'attr' else to_pg(new)
+    hv.rebind({pg.KeyPath(list(path)).path: val})
+  return hv
+
+def process_template(job, prebuilt=None):
   import random as pyrandom
-  ti, label, t, w, seed, qtr, P = job
+  ti, label, t, w, seed, qtr, P = job[:7]
+  prep = job[7] if len(job) > 7 else None
   rec = Rec()
   pg = py()['pg']
   rng = pyrandom.Random(seed)
@@ -898,6 +961,19 @@ def process_template(job):
     if not okb:
       rec.hist('binding_refused', '%s: %s' % (label.split(':')[1][:40] if origin == 'typed' else origin, type(hv).__name__)); return rec
     rec.hist('binding_refused', 'accepted: %s' % (label.split(':')[1][:40] if origin == 'typed' else origin))
+  elif prebuilt is not None:
+    hv = prebuilt
+  elif prep is not None:            # a hyper primitive updated in place before anything else is done with it
+    case0 = dict(case0, prep=prep)
+    okb, hv = attempt(lambda: build_rebound(prep[0], prep[1]))
+    if not okb:
+      rec.hit('C13/history/rebind-raises/%s/%s' % (type(hv).__name__, prep[2]), 'updating %s in place at %r raises %s: %s' % (describe(prep[0]), prep[1][0][0], type(hv).__name__, str(hv)[:160]), dict(case0, op='rebind'))
+      return rec
+    okd, got = attempt(lambda: from_pg(hv))
+    if not okd or got != t:
+      rec.hit('C13/history/rebind-result/%s' % prep[2], 'updating %s in place at %r gives %s, expected %s' % (describe(prep[0]), prep[1][0][0], describe(got) if okd else '?', td), dict(case0, op='rebind'))
+      return rec
+    rec.hist('rebound_in_place', prep[2])
   else:
     okb, hv = attempt(lambda: to_pg(t))
     if not okb:                     # every generated template is a legal hyper value: a refusal is an outcome of the implementation, with the case as witness
@@ -1022,6 +1098,29 @@ def process_template(job):
         if not okm or not pg.eq(vm, v) or from_pg(vm) != vd:
           rec.hit('C13/materialize-differs/%s' % feat, 'pg.materialize(%s) differs from template.decode' % dna, dcase)
         unchanged('materialize', dict(sdna=sd))
+      # SECOND STAGE: a partially decoded value (placeholders left by the filter) is a search space of its own — it must behave
+      # exactly like a freshly written equal value: same specification, decode / encode / iteration on the remaining space
+      if P.get('stage', 1) == 1 and left_hypers(vd) and di in ((0, len(sds) - 1) if P.get('thorough') else (0,)) and time.time() < P['deadline']:
+        rec.oracle += 1
+        oks2, sp2 = attempt(lambda: spec_of_pg(pg.dna_spec(v)))
+        okf2, spf = attempt(lambda: spec_of_pg(pg.dna_spec(to_pg(vd))))
+        scase = dict(dcase, op='second-stage')
+        if okf2 and (not oks2 or sp2 != spf):
+          rec.hit('C13/second-stage/spec-differs-from-fresh-equal-value/%s' % feat, 'decode of %s leaves %s; pg.dna_spec of that value is %s, of an equal freshly written value %s; template %s (%s)' % (
+              dna, describe(vd), G.describe(sp2) if oks2 else '%s: %s' % (type(sp2).__name__, str(sp2)[:100]), G.describe(spf), td, wd), scase)
+        P2 = dict(P, stage=2, limit=16, nrand=4, ncwork=0, npwork=0, nsample=0)
+        # a root-level manyof decodes to a plain Python list: as a search space of its own it is written as a pg.List
+        v_space = pg.List(v) if isinstance(v, list) and not isinstance(v, pg.List) else v
+        ok2s, rec2 = attempt(lambda: process_template((ti, 'second-stage:' + label.rstrip('?!'), vd, ['none'], seed + di, qtr, P2), prebuilt=v_space))
+        if not ok2s:
+          rec.hit('C13/second-stage/raises-%s/%s' % (type(rec2).__name__, feat), 'using the decoded value %s as a search space raises %s: %s' % (describe(vd), type(rec2).__name__, str(rec2)[:160]), scase)
+        else:
+          for ev in rec2.events:
+            if ev[0] == 'hit':
+              rec.hit('C13/second-stage/' + ev[1].split('/', 1)[1], 'second stage on the value decoded from %s (%s), DNA %s: %s' % (td, wd, dna, ev[2]), dict(scase, second_stage_case=ev[3]))
+            else:
+              rec.events.append(ev)
+          rec.cases += rec2.cases; rec.impl += rec2.impl; rec.descr += rec2.descr; rec.oracle += rec2.oracle
     rec.add([1, qtr, wtr, ttr, sdtr], [1, r1, r1, enc_out], dict(op='decode/encode', template=td, where=wd, dna=str(dna)))
     rec.count(('dec', trlib.to_line(wtr), trlib.to_line(ttr), trlib.to_line(sdtr)), nontrivial=nontriv, kind='decode+encode',
               sample=dict(op='decode/encode', template=td, where=wd, dna=str(dna), value=describe(vd) if vd else None, distinguishable=dist) if nontriv and (ti + di) % 41 == 0 else None)
@@ -1294,7 +1393,7 @@ def run(ctx):
   qtr = [int(q['list_dict'])]
   ctx.extra['quirk_flags_from_witness_replay'] = q
   import time
-  P = dict(limit=ctx.scale(200, 200), nrand=ctx.scale(50, 50), ncwork=ctx.scale(1, 3), ncorr=ctx.scale(6, 20), npwork=ctx.scale(1, 3), npert=ctx.scale(6, 20), nsample=ctx.scale(2, 6))
+  P = dict(limit=ctx.scale(200, 200), nrand=ctx.scale(50, 50), ncwork=ctx.scale(1, 3), ncorr=ctx.scale(6, 20), npwork=ctx.scale(1, 3), npert=ctx.scale(6, 20), nsample=ctx.scale(2, 6), thorough=ctx.thorough)
   ctx.extra['per_template_parameters'] = dict(P)
   budget = int(os.environ.get('C13_IMPL_BUDGET', ctx.scale(55, 1200)))
   P['deadline'] = time.time() + budget
@@ -1337,7 +1436,7 @@ def run(ctx):
   for i in range(ctx.scale(60, 1500)):
     t, mr = random_typed(rng)
     templates.append(('typed-random:%d%s' % (i, '?' if mr else ''), t, random_where(rng, t) if rng.random() < 0.4 else ['none']))
-  for i in range(ctx.scale(220, 6000)):
+  for i in range(ctx.scale(180, 6000)):
     g = TGen(rng, hyper_budget=rng.choice([1, 2, 2, 3, 3, 4, 5]), p_collide=rng.choice([0.0, 0.0, 0.1, 0.3]))
     t = g.value(rng.choice([1, 2, 2, 3, 3]), p_h=0.6)
     if not left_hypers(t) and rng.random() < 0.8:
@@ -1345,10 +1444,23 @@ def run(ctx):
     templates.append(('random:%d' % i, t, random_where(rng, t)))
   if os.environ.get('C13_MAXTEMPLATES'):
     templates = templates[::max(1, len(templates) // int(os.environ['C13_MAXTEMPLATES']))]
+  # hyper primitives updated IN PLACE (one candidate, a nested field of a candidate, hints, a float bound) before anything is done
+  # with them: the updated object must behave like a freshly built equal one — the whole check runs on it, model included
+  rebound = [('rebound:oneof-candidate', ['1', [['L', 5], ['L', 2]], None, None], ['none'], (['1', [['L', 1], ['L', 2]], None, None], [[['candidates', 0], ['L', 5]]], 'candidate'))]
+  pool = [(l, t, w) for l, t, w in templates if l.split(':')[0] in ('sweep', 'random', 'pairs') and left_hypers(t)]
+  for l, t, w in [pool[i] for i in sorted(rng.sample(range(len(pool)), min(len(pool), ctx.scale(80, 3000))))]:
+    var = rebind_variant(rng, t)
+    if var is not None:
+      rebound.append(('rebound:' + l.replace(':', '-'), t, w, var))
+  ctx.extra['rebound_in_place'] = dict(what='templates whose real object is built differing in one place below a hyper primitive (a candidate, a nested field of a candidate, hints, a float bound) and then updated in place '
+                                            'with rebind before dna_spec / decode / encode / iter / history are run on it', templates=len(rebound))
   jobs = [(ti, l, t, w, rng.getrandbits(48), qtr, P) for ti, (l, t, w) in enumerate(templates)]
+  jobs += [(len(jobs) + i, l, t, w, rng.getrandbits(48), qtr, P, prep) for i, (l, t, w, prep) in enumerate(rebound)]
+  # under a wall budget the tail is what gets skipped: the purely random templates go last
+  jobs.sort(key=lambda j: 1 if j[1].split(':')[0] in ('random', 'typed-random') else 0)
   nproc = int(os.environ.get('VERIF_JOBS', str(min(12, os.cpu_count() or 2))))
   recs = run_jobs(jobs, nproc)
-  ctx.log('implementation ran on %d templates (%d worker processes)%s' % (len(templates), nproc, '; wall budget exhausted: the rest is reported under skipped_for_time_budget' if time.time() > P['deadline'] else ''))
+  ctx.log('implementation ran on %d templates (%d worker processes)%s' % (len(jobs), nproc, '; wall budget exhausted: the rest is reported under skipped_for_time_budget' if time.time() > P['deadline'] else ''))
   cases, impl, descr = [], [], []
   noracle = 0
   for rec in recs:
@@ -1386,7 +1498,8 @@ def replay(ctx, rp):
   q = detect_quirks()
   import time
   P = dict(limit=200, nrand=50, ncwork=0, ncorr=0, npwork=0, npert=0, nsample=3, deadline=time.time() + 600)
-  rec = process_template((0, 'replay', c['template'], c['where'], 1, [int(q['list_dict'])], P))
+  job = (0, 'replay', c['template'], c['where'], 1, [int(q['list_dict'])], P) + ((tuple(c['prep']),) if c.get('prep') else ())
+  rec = process_template(job)
   hits = [ev for ev in rec.events if ev[0] == 'hit']
   known = {f['signature'] for f in ctx.open_findings()} if rp.get('ignore_known') else set()
   hits = [h for h in hits if h[1] not in known]
